@@ -142,7 +142,7 @@ func genMarker(r *rand.Rand, depth int) string {
 type genOpts struct {
 	friendly               bool
 	route, late            bool
-	leak                   bool
+	leak, holes            bool
 	nPkg, maxVers, maxReqs int
 	markers, extras        int // percent of requirements
 	gadget                 bool
@@ -270,6 +270,9 @@ func genUniverse(r *rand.Rand, o genOpts) *uni {
 	if o.leak {
 		addLeakGadget(r, u)
 	}
+	if o.holes {
+		addHolesGadget(r, u)
+	}
 	if o.late {
 		// F-C08-extras shape: la is pinned without extras, then lb asks for la[x]
 		a := anchor()
@@ -356,6 +359,125 @@ func addLeakGadget(r *rand.Rand, u *uni) {
 			pkg{Name: "qb", Vers: []ver{{V: "1.0", Reqs: []req{{Pkg: "qc"}}}}},
 			pkg{Name: "qc", Vers: []ver{{V: "1.0", Reqs: []req{{Pkg: "qy", Spec: "==9.0"}}}, {V: "2.0", Reqs: []req{{Pkg: "qa", Spec: "<1.0"}}}}})
 	}
+}
+
+// holeSpec draws a specifier on hp whose match set has interior gaps: an optional
+// range (>=lo / <=hi / <next / >prev) combined with one or two `!=v` / `!=k.*` holes.
+func holeSpec(r *rand.Rand, vs []string, a, b int) string {
+	var parts []string
+	switch r.Intn(4) {
+	case 0:
+		parts = append(parts, ">="+vs[a])
+	case 1:
+		if a > 0 {
+			parts = append(parts, ">"+vs[a-1])
+		}
+	}
+	switch r.Intn(4) {
+	case 0:
+		parts = append(parts, "<="+vs[b])
+	case 1:
+		if b+1 < len(vs) {
+			parts = append(parts, "<"+vs[b+1])
+		}
+	}
+	for k := 1 + r.Intn(2); k > 0; k-- {
+		h := vs[a+1+r.Intn(b-a-1)]
+		if r.Intn(4) == 0 {
+			parts = append(parts, "!="+h[:strings.Index(h, ".")]+".*")
+		} else {
+			parts = append(parts, "!="+h)
+		}
+	}
+	r.Shuffle(len(parts), func(i, j int) { parts[i], parts[j] = parts[j], parts[i] })
+	return strings.Join(parts, ",")
+}
+
+// addHolesGadget grafts the "equal ends, different interiors" shape: one package hp
+// with 3-7 versions, two or three dependents hd1..hd3 whose specifiers on hp match
+// lists of EQUAL LENGTH with EQUAL FIRST AND LAST element but different interiors
+// (found by rejection sampling against the real Client.MatchingVersions), and the
+// newest one or two commonly matched versions of hp made uninstallable (missing
+// version of hq, or a pin of hq conflicting with the root's), so that the resolver
+// walks down through the holes. Only a real intersection keeps a version excluded
+// by the second or third requirement out of the candidates.
+func addHolesGadget(r *rand.Rand, u *uni) {
+	pool := []string{"1.0", "1.5", "2.0", "2.1", "3.0", "3.0rc1", "4.0", "4.1", "5.0", "6.0"}
+	n := 4 + r.Intn(4)
+	idx := r.Perm(len(pool))[:n]
+	hp := pkg{Name: "hp"}
+	for _, i := range idx {
+		hp.Vers = append(hp.Vers, ver{V: pool[i]})
+	}
+	tmp := &uni{Pkgs: []pkg{hp}}
+	tmp.normalise()
+	hp = tmp.Pkgs[0]
+	var vs []string
+	for _, v := range hp.Vers {
+		vs = append(vs, v.V)
+	}
+	nDep := 2 + r.Intn(2)
+	lc := tmp.client()
+	var specs []string
+	var lists [][]string
+	found := false
+	for try := 0; try < 200 && !found; try++ {
+		a := r.Intn(len(vs) - 3)
+		b := a + 3 + r.Intn(len(vs)-a-3)
+		specs, lists = nil, nil
+		for d := 0; d < nDep; d++ {
+			sp := holeSpec(r, vs, a, b)
+			specs = append(specs, sp)
+			lists = append(lists, matchRow(lc, "hp", sp).N)
+		}
+		found = true
+		for d := 1; d < nDep; d++ {
+			x, y := lists[0], lists[d]
+			if len(x) < 3 || len(x) != len(y) || x[0] != y[0] || x[len(x)-1] != y[len(y)-1] || strings.Join(x, ",") == strings.Join(y, ",") {
+				found = false
+			}
+		}
+	}
+	if !found {
+		return
+	}
+	// the newest one or two versions matched by the first dependent cannot be installed
+	top := lists[0]
+	mode := r.Intn(2) // 0 missing version of hq, 1 conflicting pin
+	nBad := 1 + r.Intn(2)
+	for k := 0; k < nBad && k < len(top)-1; k++ {
+		v := hp.find(top[len(top)-1-k])
+		if mode == 0 {
+			v.Reqs = append(v.Reqs, req{Pkg: "hq", Spec: "==9.0"})
+		} else {
+			v.Reqs = append(v.Reqs, req{Pkg: "hq", Spec: pick(r, "==2.0", ">1.0")})
+		}
+	}
+	var rootReqs []req
+	var deps []pkg
+	for d := 0; d < nDep; d++ {
+		name := fmt.Sprintf("hd%d", d+1)
+		if d == 0 && r.Intn(3) == 0 {
+			// the root itself is the first dependent
+			rootReqs = append(rootReqs, req{Pkg: "hp", Spec: specs[d]})
+			continue
+		}
+		rootReqs = append(rootReqs, req{Pkg: name, Spec: pick(r, "", "", ">=1.0")})
+		deps = append(deps, pkg{Name: name, Vers: []ver{{V: "1.0", Reqs: []req{{Pkg: "hp", Spec: specs[d]}}}}})
+	}
+	if mode == 1 {
+		rootReqs = append(rootReqs, req{Pkg: "hq", Spec: "==1.0"})
+	}
+	r.Shuffle(len(rootReqs), func(i, j int) { rootReqs[i], rootReqs[j] = rootReqs[j], rootReqs[i] })
+	if len(u.Pkgs) > 0 && r.Intn(2) == 0 {
+		// reachable from another root as well
+		p := &u.Pkgs[r.Intn(len(u.Pkgs))]
+		v := &p.Vers[r.Intn(len(p.Vers))]
+		v.Reqs = append(v.Reqs, req{Pkg: "hroot"})
+	}
+	u.Pkgs = append(u.Pkgs, pkg{Name: "hroot", Vers: []ver{{V: "1.0", Reqs: rootReqs}}}, hp,
+		pkg{Name: "hq", Vers: []ver{{V: "1.0"}, {V: "2.0"}}})
+	u.Pkgs = append(u.Pkgs, deps...)
 }
 
 // tiny small-scope universes: every assignment over a tiny alphabet, enumerated by index.
@@ -558,6 +680,7 @@ func run(c *fw.Ctx) {
 		o.route = r.Intn(25) == 0
 		o.late = r.Intn(25) == 0
 		o.leak = r.Intn(12) == 0
+		o.holes = !o.leak && r.Intn(10) == 0
 		u := genUniverse(r, o)
 		var all [][2]string
 		for _, p := range u.Pkgs {
@@ -578,9 +701,18 @@ func run(c *fw.Ctx) {
 				all = all[:3]
 			}
 		}
+		if o.holes {
+			all = append([][2]string{{"hroot", "1.0"}}, all...)
+			if len(all) > 3 {
+				all = all[:3]
+			}
+		}
 		tag := "random"
 		if o.leak {
 			tag = "random-leak-gadget"
+		}
+		if o.holes {
+			tag = "random-holes-gadget"
 		}
 		if o.malformed {
 			tag = "random-malformed"
